@@ -110,13 +110,29 @@ Example ex_symbols_read_back :
 Proof. vm_compute. repeat split. Qed.
 
 (* print -> re-read, plain decimal texts (digits and a decimal point): the reader recovers
-   exactly the integer and the precision that were printed.  PARTIAL: thousands marks, decimal
-   comma, symbol placement and quoting are covered by the correspondence check only. *)
+   exactly the integer and the precision that were printed.  PARTIAL: decimal comma and symbol
+   placement are covered by the correspondence check only (thousands marks: next theorem; quoting:
+   printed_symbol_reads_back). *)
 Theorem print_parse_roundtrip_plain_partial : forall N p,
   0 <= N -> 0 < p ->
   scan_quantity false (quantity_text style_none false false N p p) = Ok (mkPQ N p false false).
 Proof. exact plain_text_roundtrip. Qed.
 Print Assumptions print_parse_roundtrip_plain_partial.
+
+(* the same with thousands marks: N / 10^p printed in a style that groups the integer digits in threes is read back as
+   exactly N with precision p - every comma stands where the count of digits to its right is a multiple of three, so the
+   reader (scan_step: a comma elsewhere after a decimal point is an error, a comma at a multiple of three is a mark)
+   neither refuses the text nor takes a mark for the decimal point (decimal-comma styles: correspondence only, F21) *)
+Theorem print_parse_roundtrip_thousands_marks : forall N p sfx sep,
+  0 <= N -> 0 < p ->
+  exists th, scan_quantity false (quantity_text (mkStyle sfx sep true false) true false N p p) = Ok (mkPQ N p th false).
+Proof. exact grouped_text_roundtrip. Qed.
+Print Assumptions print_parse_roundtrip_thousands_marks.
+
+Example ex_roundtrip_thousands_marks :
+  quantity_text (mkStyle false false true false) true false 123456789 2 2 = [49;44;50;51;52;44;53;54;55;46;56;57] /\
+  scan_quantity false [49;44;50;51;52;44;53;54;55;46;56;57] = Ok (mkPQ 123456789 2 true false).
+Proof. exact grouped_roundtrip_example. Qed.
 
 Theorem digits_read_back : forall n, 0 <= n -> digits_value 0 (digits n) = n.
 Proof. exact digits_value_digits. Qed.
